@@ -9,7 +9,7 @@
    proved for every r x c layout (C19_sum_of_squares_bound), the vertical rule for any number of rows. *)
 From Coq Require Import List Bool Arith Field Reals.
 Import ListNotations.
-From MrVerif Require Import Model.CG Model.PowerIter Proofs.CGProofs Proofs.PowerIterProofs.
+From MrVerif Require Import Model.CG Model.PowerIter Model.PowerIterLit Proofs.CGProofs Proofs.PowerIterProofs Proofs.PowerIterLitProofs.
 
 (* the whole outcome of the power iteration (error kind, returned squared estimates per batch element, callback sequence)
    is the same for the start vectors c * v0 and v0, for every c <> 0, every field, every family of homogeneous operators,
@@ -67,6 +67,16 @@ Theorem C19_never_nan : forall (F : Type) (f0 : F) (fadd fmul fdiv : F -> F -> F
   exists e t, operator_norm_sq F f0 fadd fmul fdiv feqb close Gs v0s n = PDone e t.
 Proof. exact operator_norm_never_nan. Qed.
 Print Assumptions C19_never_nan.
+
+(* the code, read literally (Model/PowerIterLit.v, regenerated from the source on every run: normalised vector, sqrt of the Rayleigh quotient,
+   guarded renormalisation), IS the model above: for every homogeneous G (x |-> A^H A x), stopping test, non-zero start vector and budget >= 1
+   the literal run makes the same number of passes and returns / reports the square roots of the model's squared estimates *)
+Theorem C19_literal_refines : forall (G : list R -> list R), (forall c u, G (vscaleR c u) = vscaleR c (G u)) ->
+  forall (close : R -> R -> bool) x0 n, (0 < dotR x0 x0)%R -> n <> 0%nat ->
+  exists e t, operator_norm_sq R 0%R Rplus Rmult Rdiv Reqb' (close2 close) [G] [x0] n = PDone [e] (map (fun q => [q]) t) /\
+              lit_operator_norm G close x0 n = (sqrt e, map sqrt t).
+Proof. exact lit_operator_norm_refines. Qed.
+Print Assumptions C19_literal_refines.
 
 (* the documented 'upper bound' of LinearOperatorMatrix.operator_norm is not one: block row [I I] (open finding KF-02) *)
 Theorem C19_matrix_bound_refuted : exists x1 x2 : R,
